@@ -39,6 +39,16 @@
                    unless THIS property says otherwise.  The driver binds several such properties per start and runs
                    several starts per process (groups); every case of a group is predicted on its own - what was bound
                    before must not matter.
+   [cget2]       : NO SHARING between bound values and the configuration, nor between two bound values.  Some v = the case
+                   ran in a group whose holders change what they were given: a post-processor of the driver visits every
+                   field as soon as its component is initialised, takes the observation reported here and THEN changes
+                   the bound map / slice in place (entries overwritten, keys added and deleted, elements overwritten and
+                   reordered - through pointers, struct fields and typed elements; in deep mode also inside interface-typed
+                   positions).  Several fields, components and starts of such a group bind the SAME keys, so every
+                   observation is made after earlier holders of the same configured value scribbled over their copies;
+                   v is Configure.Get(key) read again on the App of the bindings after all that.  The model has no state
+                   to share: a binding is a function of (configured value, tag, type) - the observations are compared
+                   with exactly the predictions of a single binding, and v with [cv].
    [kf_class]    : the known-finding classes KF-C17a..i as predicates over the configured value /
                    literal and the field type (0 = none).  The driver accepts a failing oracle as a
                    known finding only if the case is in a class AND check_case holds (the
@@ -71,7 +81,8 @@ Record case := mkCase {
   cdflt : option bytes; (* the default written in the placeholder / prop shorthand *)
   cpfx : bytes;         (* template: literal text before ... *)
   csfx : bytes;         (* ... and after the placeholder *)
-  cmap : option bytes   (* the tag argument mapper=<tag key> of this property *)
+  cmap : option bytes;  (* the tag argument mapper=<tag key> of this property *)
+  cget2 : option cval   (* mutating groups: Configure.Get(key) after every holder changed its bound value in place *)
 }.
 
 (* the type the property's decoder sees: names by the yaml tag, or by the tag key of the property's own mapper argument *)
@@ -186,10 +197,15 @@ Definition route_ok (modelled : bool) (m : option (res fval)) (o : obs) : bool :
   | _ => if modelled then match m with Some r => obs_eqb (obs_of r) o | None => true end else true
   end.
 
+(* the configuration is not changed by binding it, nor by what holders do with the values they were given *)
+Definition config_kept (c : case) : bool :=
+  match cget2 c with Some v => cval_eqb v (cv c) | None => true end.
+
 Definition check_case (c : case) : bool :=
   route_ok (prefix_modelled c) (Some (model_prefix c)) (o_prefix c)
   && route_ok (value_modelled c) (model_value c) (o_value c)
-  && route_ok (value_modelled c) (model_prop c) (o_prop c).
+  && route_ok (value_modelled c) (model_prop c) (o_prop c)
+  && config_kept c.
 
 (* ---- the property on the observations ------------------------------------------------------------ *)
 
@@ -333,7 +349,8 @@ Definition oracle_tpl (c : case) : bool :=
   && route_ok (value_modelled c) (model_value c) (o_value c).
 
 Definition oracle_case (c : case) : bool :=
-  match ckind c with O => oracle_key c | 1%nat => oracle_lit c | _ => oracle_tpl c end.
+  match ckind c with O => oracle_key c | 1%nat => oracle_lit c | _ => oracle_tpl c end
+  && config_kept c.
 
 (* 1..9 = KF-C17a..i; 0 = none.  Priority: the class that explains the top-level text first. *)
 Definition kf_class (c : case) : nat :=
@@ -457,6 +474,18 @@ Fixpoint ftype_eqb (a b : ftype) {struct a} : bool :=
     (string field, required=false: nothing is bound on either side); ... on an absent key; templates; ... that bound a value;
     cases with a mapper argument; ... that select other names than the yaml tags would; cases without a mapper argument whose
     yaml tags rename a field; ... that bound a value by prefix] *)
+(* bindings of mutating groups: [all; ... whose configured value is a map or a list; ... bound ok by prefix; ... whose
+   prefix-bound field equals the configured value as it is (embed: nothing converted, the case in which a decoder could
+   hand out the configuration's own container)] *)
+Definition is_container (v : cval) : bool := match v with VMap _ | VList _ => true | _ => false end.
+Definition mutated (c : case) : bool := match cget2 c with Some _ => true | None => false end.
+Definition sharing_counts (cs : list case) : list nat :=
+  [length (filter mutated cs);
+   length (filter (fun c => mutated c && is_container (cv c)) cs);
+   length (filter (fun c => mutated c && is_container (cv c) && is_ok (o_prefix c)) cs);
+   length (filter (fun c => mutated c && is_container (cv c) &&
+                            match embed (cT c) (cv c) with Some _ => true | None => false end) cs)].
+
 Definition class_counts (cs : list case) : list nat :=
   let key c := Nat.eqb (ckind c) 0 in
   [length (filter (fun c => key c && has_default c) cs);
